@@ -40,9 +40,11 @@ PInit ==
              errSeen |-> FALSE,  \* a main future returned Err during the current step
              panSeen |-> FALSE,  \* a task panicked during the current step
              clock   |-> TRUE,   \* C05 is claimed "after every step that returns Ok": cleared by the first Err / panic
-             over    |-> FALSE,  \* a software error or panic was reported: the run is over (C11 claims stop)
+             over    |-> FALSE,  \* an error or panic was reported: the simulation is over (C11 claims stop)
              inRun   |-> FALSE,
              rsteps  |-> 0,      \* steps taken by the current Sim::run call
+             runE0   |-> 0,      \* simulation time at which the current Sim::run call began
+             runOver |-> FALSE,  \* `over` when the current Sim::run call began
              lastRes |-> "none"] \* result of the last step of the current run
     /\ bad = {}
 
@@ -114,6 +116,8 @@ P_Fin(h, out, at) ==
     /\ pn' = [pn EXCEPT ![h].fin = out, ![h].finStart = pc.e0, ![h].finAt = at]
     /\ pc' = [pc EXCEPT !.errSeen = @ \/ out = "Err"]
     /\ bad' = bad \cup Flag(~pn[h].down, "NoRepoll")
+                  \* the completion instant is a clock reading of host code too (C05 window)
+                  \cup Flag(pc.clock => (pc.e0 <= at /\ at <= pc.e0 + Tick), "Window")
 
 \* A task of h (main future or spawned) is about to panic.
 P_Panic(h) ==
@@ -156,7 +160,7 @@ P_StepEnd(res, known, e, se, polls) ==
        /\ pc' = [pc EXCEPT !.inStep = FALSE,
                            !.e = IF res = "Err" /\ pc.errSeen THEN pc.e0 ELSE pc.e0 + Tick,
                            !.clock = @ /\ okres,
-                           !.over = @ \/ res = "Panic" \/ (res = "Err" /\ pc.errSeen),
+                           !.over = @ \/ res \in {"Panic", "Err"},
                            !.lastRes = res]
 
 \* Sim::crash(h) returned (h is a host); polls = the activity counters read right after.
@@ -176,7 +180,7 @@ P_Bounce(h, polls) ==
 
 P_RunBegin ==
     /\ ~pc.inStep /\ ~pc.inRun
-    /\ pc' = [pc EXCEPT !.inRun = TRUE, !.rsteps = 0, !.lastRes = "none"]
+    /\ pc' = [pc EXCEPT !.inRun = TRUE, !.rsteps = 0, !.lastRes = "none", !.runE0 = pc.e, !.runOver = pc.over]
     /\ UNCHANGED <<pn, bad>>
 
 \* C11 "finishes that coincide exactly with a step boundary may be attributed
@@ -194,14 +198,17 @@ P_RunEnd(res, e, se, polls) ==
     /\ pn' = IF res = "Panic" THEN pn ELSE Baseline(pn, polls)
     /\ bad' = bad
          \* "zero clients => Ok immediately"; otherwise run returns what its last step reported
-         \cup Flag(~pc.over =>
+         \cup Flag(~pc.runOver =>
                      IF Clients = {} THEN res = "Ok" /\ pc.rsteps = 0
                      ELSE /\ pc.rsteps >= 1
                           /\ (res = "Ok")    = (pc.lastRes = "true")
                           /\ (res = "Err")   = (pc.lastRes = "Err")
                           /\ (res = "Panic") = (pc.lastRes = "Panic"), "RunResult")
          \* "Ok if and only if every client future completed with Ok before the duration elapsed"
-         \cup Flag((~pc.over /\ res = "Ok") => \A c \in Clients : pn[c].fin = "Ok" /\ InTime(c), "InTime")
+         \* (a run that was *started* after the duration had already elapsed is the family of
+         \*  known finding D14 and is reported under its own name, see LateRun below)
+         \cup Flag((~pc.runOver /\ res = "Ok") => \A c \in Clients : pn[c].fin = "Ok" /\ InTime(c),
+                 IF pc.runE0 > Duration THEN "LateRun" ELSE "InTime")
          \cup Flag((pc.clock /\ res # "Panic") => (e = pc.e /\ se = Epoch + e), "ClockStep")
          \cup Flag(res # "Panic" => FrozenOk(pn, polls), "NoRepoll")
 
@@ -218,7 +225,7 @@ P_Look(e, se, polls) ==
 P_Reset ==
     /\ pn' = <<>>
     /\ pc' = [e |-> 0, e0 |-> 0, inStep |-> FALSE, errSeen |-> FALSE, panSeen |-> FALSE,
-              clock |-> TRUE, over |-> FALSE, inRun |-> FALSE, rsteps |-> 0, lastRes |-> "none"]
+              clock |-> TRUE, over |-> FALSE, inRun |-> FALSE, rsteps |-> 0, runE0 |-> 0, runOver |-> FALSE, lastRes |-> "none"]
     /\ bad' = {}
 
 ---------------------------------------------------------------------------
@@ -235,6 +242,13 @@ StepResult  == "StepResult" \notin bad
 RunResult   == "RunResult"  \notin bad
 RunInTime   == "InTime"     \notin bad
 NoRepoll    == "NoRepoll"   \notin bad
+\* Family predicate of known finding D14 (C11): Sim::run called when the simulation
+\* duration has already elapsed lets its first step run unchecked, so a client that
+\* completes within that step yields Ok although it finished after the duration.
+\* Part of the statement ("Ok if and only if ... before the duration elapsed"); listed
+\* separately so that the check reports it as the known finding and every other way
+\* of finishing late stays a violation of RunInTime.
+NoLateRun   == "LateRun"    \notin bad
 
 C05Inv == ClockStep /\ Window /\ Consistent /\ Monotone /\ TimerExact
 C11Inv == StepResult /\ RunResult /\ RunInTime /\ NoRepoll
